@@ -483,7 +483,7 @@ class C03(Check):
                     for m in ("eq", "ne", "lt", "le", "gt", "ge", "and_", "or_", "call1", "callkw",
                               "index", "index2", "index1t", "index3", "pow3", "rpow3"):
                         yield ("meth", m, k, other)
-                for m in ("not_", "attr", "a.name", "call0"):
+                for m in ("not_", "not_not", "not_x3", "attr", "a.name", "a.two", "call0"):
                     yield ("meth", m, k, "0")
 
         def smart():
@@ -596,6 +596,19 @@ class C03(Check):
             elif m == "not_":
                 tree = e.not_()
                 plainf = lambda a, b: not a                    # noqa: E731
+            elif m == "not_not":
+                tree = e.not_().not_()
+                plainf = lambda a, b: not (not a)              # noqa: E731
+            elif m == "not_x3":
+                tree = e.not_().not_().not_()
+                plainf = lambda a, b: not (not (not a))        # noqa: E731
+            elif m == "a.two":
+                # two attribute accessors alive at the same time, used in the other order
+                xa = build(V("obj")).a
+                ya = build(V("obj2")).a
+                second = ya.a
+                tree = xa.b * 100 + second
+                plainf = "a.two"
             elif m == "call0":
                 tree = build(V("f"))()
                 plainf = None
@@ -664,6 +677,8 @@ class C03(Check):
                     want = env["arr"][b,]
                 elif plainf == "index3":
                     want = env["arr"][a, b, a]
+                elif plainf == "a.two":
+                    want = env["obj"].b * 100 + env["obj2"].a
                 elif plainf == "attr":
                     want = env["obj"].a
                 else:
@@ -672,6 +687,8 @@ class C03(Check):
                 continue
             got = refsem.outcome(refsem.evaluate, tspec, dict(env))
             r.evals += 1
+            if m.startswith("not_") and got[0] == "ok" and type(got[1]) is not bool:
+                got = ("ok", ("not-a-bool", got[1]))
             if not (got[0] == "ok" and close(got[1], want)):
                 r.fail("method-value", f"method-value|{m}|{k}|{other}",
                        f"{k}.{m}({other}) built {show(tspec)}: expected {want!r}, tree gives "
